@@ -14,7 +14,6 @@ type shape struct {
 
 func mkShape(name string, degree int, mask uint64) shape {
 	s := shape{name: name, degree: degree, mask: mask}
-	const oddBits, evenBits = 0xAAAAAAAAAAAAAAAA, 0x5555555555555555
 	switch {
 	case mask != 0 && mask&evenBits == 0:
 		s.parity = 1
@@ -93,6 +92,35 @@ type mapping struct {
 	name  string
 	npoly int
 	m     func(slots int) map[int][]int
+	// mixed: polynomial 0 keeps the shape's mask (general), polynomial 1 only its odd powers, polynomial 2 only
+	// its even powers: a vector mixing odd / even / general polynomials of one formal degree.
+	mixed bool
+	// declareEach: every polynomial additionally declares its own parity (IsEven=false resp. IsOdd=false)
+	declareEach bool
+}
+
+const oddBits, evenBits = 0xAAAAAAAAAAAAAAAA, 0x5555555555555555
+
+// maskOf returns the coefficient mask of polynomial k of a vector.
+func (m mapping) maskOf(sh shape, k int) uint64 {
+	if !m.mixed {
+		return sh.mask
+	}
+	switch k {
+	case 1:
+		return sh.mask & oddBits
+	case 2:
+		return sh.mask & evenBits
+	}
+	return sh.mask
+}
+
+func thirds(s int) map[int][]int {
+	m := map[int][]int{0: nil, 1: nil, 2: nil}
+	for i := 0; i < s; i++ {
+		m[i%3] = append(m[i%3], i)
+	}
+	return m
 }
 
 func mappings() []mapping {
@@ -104,7 +132,7 @@ func mappings() []mapping {
 				m[i%2] = append(m[i%2], i)
 			}
 			return m
-		}},
+		}, false, false},
 		// one polynomial on the first half only: the other slots must evaluate to 0
 		{"partial-one", 1, func(s int) map[int][]int {
 			m := map[int][]int{0: nil}
@@ -112,7 +140,7 @@ func mappings() []mapping {
 				m[0] = append(m[0], i)
 			}
 			return m
-		}},
+		}, false, false},
 		// two polynomials on a quarter each (not contiguous), half of the slots uncovered
 		{"partial-two", 2, func(s int) map[int][]int {
 			m := map[int][]int{0: nil, 1: nil}
@@ -125,10 +153,12 @@ func mappings() []mapping {
 				}
 			}
 			return m
-		}},
+		}, false, false},
 		// three polynomials on one slot each (first, a middle one, last)
 		{"singletons", 3, func(s int) map[int][]int {
 			return map[int][]int{0: {0}, 1: {s/2 + 1}, 2: {s - 1}}
-		}},
+		}, false, false},
+		// general / odd / even polynomials in one vector, parity not declared
+		{"mixed-parity", 3, thirds, true, false},
 	}
 }
